@@ -16,7 +16,16 @@ Domain : (1) every .co file shipped in the repository (library, examples, docs, 
              (`a or b or a`, `(a or b) and (b or a)`, `a and a`), in every statement form that takes a group (await, bare statement,
              $z = await / $z = <group>, start, match, send, when cases, activate of and-groups), with / without `as $ref` captures,
              at top level / in while loops / if / else / when branches;
-         (6) three enumerated families: Colang 1.0 when chains (2-3 branches x ending of every branch x 9 surroundings),
+         (6) Colang 1.0 goto plans: 'spread' (0-2 gotos to any labels) or 'fan-in' (2-4 gotos that all name the SAME label, all in
+             front of it - forward jumps -, all behind it, or on both sides; at top level and inside if / while / when blocks);
+         (7) Colang 2.x configurations of 1-4 flows (loop-leg bodies) initialised 2-3 times on the SAME flow configs - one runtime,
+             several conversations: create_flow_configs_from_flow_list once, then State + initialize_state per attempt -, 0-2 of the
+             flows carrying a statement the parser accepts and the expansion REJECTS (match / send of a flow or action, activate /
+             deactivate of an event or an or-group, await / start of an event, alone or as a group member) at any place of the body;
+         (8) five enumerated families: Colang 1.0 goto fan-in (2-3 gotos to one label x 5 site shapes x forward / backward / both
+             sides x label / checkpoint x label at top level / in a block x with / without a second label), Colang 2.x
+             expansion-raises (18 rejected statements x 7 places x bad flow first / middle / last of three x rich / primitive rest),
+             Colang 1.0 when chains (2-3 branches x ending of every branch x 9 surroundings),
              Colang 2.x loop exits (13 neighbour sets x 5 chain forms x 5 branch-ending patterns x 6 placements) and Colang 2.x
              group formulas with repetition (every formula of 2-4 member slots up to renaming x statement form x member kind).
 Oracle : static closure predicate over the compiled elements.
@@ -26,8 +35,13 @@ Oracle : static closure predicate over the compiled elements.
          Meta/docstring dicts); every Goto / ForkHead / CatchPatternFailure / labelled Break/Continue target is in
          element_labels and element_labels points at a Label of that name; every MergeHeads has its ForkHead; every BeginScope
          is followed by an EndScope of the same name and no EndScope precedes its BeginScope.
+         A send / match primitive works on an event or a member of a reference (a bare flow / action spec there is unexpanded).
+         Every generated 2.x program: two compilations of the same parsed flows and a second state initialised on the flow configs
+         of one compilation must all be closed.  Leg (7): every attempt is either rejected (initialize_state raises) or accepted,
+         and every flow config of an accepted state must be closed - also when an earlier attempt on the same configs was rejected.
          1.0: every relative jump (_next, _next_else, _next_on_break, _next_on_continue) used by the element's type and every
-         branch head lands inside [0, len(elements)]; absolute jumps are -1 (return) or inside the flow.
+         branch head lands inside [0, len(elements)]; absolute jumps are -1 (return) or inside the flow; every jump element has
+         a target (`_next` present) and no goto / label element is left.
 """
 import os
 
@@ -55,10 +69,21 @@ RULE = (
     "disjunctive normal form) - x 9 statement forms (await, bare statement, $z = await, $z = <group>, start, match, send, when case, "
     "activate [and-groups only]) x the member kinds the form takes (flows, flows with arguments, actions, flows + actions, events, events + "
     "flows in when cases); every third case stands in a while loop / if / else / when branch instead of at top level. "
+    "family goto-fanin: Colang 1.0 flows with 2-3 gotos that name the SAME label x 5 site shapes (branches of one when chain, then / else "
+    "block of one if, consecutive if blocks, if blocks inside a while body, when branch + if-in-while-in-if + top level) x the gotos all in "
+    "front of the label (forward jumps) / all behind it / first in front and the rest behind x label / checkpoint x label at top level / "
+    "last statement of an if block x with / without a second label with a goto of its own (176 cases). "
+    "family expansion-raises: Colang 2.x configurations of three flows, one of them with one statement the parser accepts and the "
+    "expansion rejects - 18 statements: match / send of a flow or action, activate / deactivate of an event, action or or-group, await / "
+    "start / $z = await of an event, each alone and as a member of a group - x 7 places (first / last statement, while body, if / else "
+    "block, when branch, if block inside a loop in front of a break) x the bad flow first / middle / last x its other statements need "
+    "expansion or not; flow configs created once, three states initialised on them (756 cases). "
     "generated: co2 programs (depth<=3 nesting of if/while/when, groups, break/continue, flows with parameters); co1 programs when the "
     "module is present; Colang 1.0 texts (label/checkpoint, goto, if/else, while with break/continue, when chains of 1-4 branches, return / "
     "return $v / stop / abort closing any block, every when branch independently as drawn / exit appended / exit alone, a third of the flows "
-    "ending with a when chain, flow or subflow); Colang 2.x loop programs (1-3 top-level loops nested up to 3 deep, each loop drawn 'bare' - "
+    "ending with a when chain, flow or subflow; goto plan per flow: 'spread' = 0-2 gotos each to any label of the flow, or - a third of the "
+    "flows - 'fan-in' = 2-4 gotos to ONE label, all in front of it / all behind it / alternating sides, inserted at any line, i.e. at top "
+    "level and inside if / while / when blocks; a flow without label gets one in front of or behind its body); Colang 2.x loop programs (1-3 top-level loops nested up to 3 deep, each loop drawn 'bare' - "
     "only statements that need no expansion plus if chains and loops - or 'mixed' with await/start/activate/groups/when/pass; if/elif/else "
     "chains of 1-3 conditions; a third of the branches inside a loop are `break` / `continue` alone; exits also at the end of longer branches "
     "and in when branches; a few expanded statements are groups with a repeated member); Colang 2.x group programs (1-3 flows of 1-3 group "
@@ -66,15 +91,35 @@ RULE = (
     "members repeat, then as drawn / one child repeated at the end / the formula mirrored under a second operator - `(a or b) and (b or a)`; "
     "statement form and member kind as in the family, when statements with 1-3 group cases and optional else, `as $ref` captures on no / "
     "the first / every member, each statement at top level or inside while / while-with-break / if / else / when branch). "
-    "Shares are visible in the labels (form:*, kind:*, place:*, repeated-member/<form>, member-twice-in-alternative, dup-alternative+distinct>=2/"
+    "Colang 2.x re-initialisation programs (leg v2reinit, 2 of 17 generated cases): 1-4 flows with loop-leg bodies (statements, if chains, "
+    "while loops, when), main activating 0-2 of them; 0 (1 in 6), 1 (4 in 6) or 2 flows / places carry a statement drawn from the 18 the "
+    "expansion rejects, inserted into any block of the body at any position (never behind a closing break / continue); the flow configs are "
+    "created once and 2-3 states are initialised on them. Every other generated 2.x program is compiled twice from the same parsed flows and "
+    "a further state is initialised on the flow configs of the second compilation. "
+    "Shares are visible in the labels (goto-same-label>=2, goto-forward-same-label>=2 [/in-block], >=3, goto-backward-same-label>=2, "
+    "goto-both-sides-of-label; bad-flows0|1|2, bad:<keyword>[-group], bad-in:top|while|if|elif|else|when, bad-inside-loop, bad-flow-first|middle|last, "
+    "valid-flows-behind-bad-flow, bad-flow-with-composites|otherwise-primitive, attemptsN, outcomes:accepted|rejected; form:*, kind:*, place:*, repeated-member/<form>, member-twice-in-alternative, dup-alternative+distinct>=2/"
     "<form>, dup-alternative/all-same, dup-alternative-reordered, dnf-altsN, refs:first|all; when-late-exit@flow-end / @followed / @block-end, bare|mixed+only-exit-branch"
     "@single|inner|outer, loop-nestN, elif-in-loop, exit-in-when). Non-trivial = a flow whose source nests composite constructs >= 2 deep, or "
     "uses break/continue, or a group; v1 texts: >= 3 jump offsets; loop programs: every loop has an exit or loops are nested; group programs: a nested group, a repeated member or >= 2 "
-    "alternatives; for files: a file "
+    "alternatives; re-initialisation programs: >= 2 states initialised on the same flow configs (always); for files: a file "
     "whose flows compile to >= 1 jump/fork. Distinct by program text / file path."
 )
 ASSUMPTIONS = [
     "generated 2.x programs are parsed once and compiled twice from the same parsed flows (what two LLMRails instances built from one RailsConfig do); both compilations must be closed",
+    "a runtime creates its flow configs once and initialises a new State on the same FlowConfig objects for every conversation "
+    "(RuntimeV2_x.process_events with state=None): the harness does the same at state-machine level - create_flow_configs_from_flow_list once, "
+    "then State(flow_states={}, flow_configs=dict(configs)) + initialize_state per attempt; 'the loader accepts' = initialize_state returns. "
+    "An attempt that raises (any exception type) is a rejection and asserts nothing; it is not required that all attempts have the same "
+    "outcome - only that every flow config of an accepted state is closed. A generated program WITHOUT a rejected statement that is "
+    "rejected counts as a violation (compile-error), as in the other generated legs",
+    "the statements the expansion rejects were established by probing (all raise ColangSyntaxError on the unchanged tree); `stop <flow>` "
+    "(NotImplementedError without message) is not generated",
+    "a send / match element whose spec is a bare flow or action (no member, not an event) counts as unexpanded: the expansion either "
+    "rewrites or rejects every such element, so it cannot occur in a flow the loader accepted",
+    "Colang 1.0: a `jump` element without `_next` is an unresolved jump (the interpreter adds `_next` to the position unconditionally); a "
+    "remaining `goto` / `label` element likewise; where several gotos name one label nothing beyond closure (and, as before, that a goto "
+    "lands on the element carrying its label) is asserted",
     "scope closure is checked per scope name (every Begin is followed by an End, no End before its Begin), not per control-flow path",
     "duplicate labels are not forbidden by the statement and are not reported",
     "a shipped 2.x file that references flows defined outside the standard library and its own directory is counted as skipped",
@@ -137,8 +182,10 @@ def enumerate_cases(tier):
     for rel in _co_files():
         yield {"leg": "file", "path": rel}
     yield from _v1_when_family()
+    yield from _v1_goto_family()
     yield from _v2_loops_family()
     yield from _v2_groups_family()
+    yield from _v2_reinit_family()
 
 
 _V1_EXITS = ["return", "return", "return $v0", "stop", "abort"]  # statements that leave the flow
@@ -205,6 +252,14 @@ def _v1_block(draw, depth, labels, in_loop):
     return lines
 
 
+def _v1_insert_goto(body, pos, name):
+    """Inserts `goto name` in front of line `pos`, as a statement of the block the line above belongs to (or opens)."""
+    ind = len(body[pos - 1]) - len(body[pos - 1].lstrip()) if pos > 0 else 0
+    if pos > 0 and body[pos - 1].lstrip().split(" ")[0] in ("if", "while", "when", "else"):
+        ind += 2
+    body.insert(pos, " " * ind + "goto " + name)
+
+
 @st.composite
 def _v1_offsets_case(draw):
     flows = []
@@ -223,13 +278,28 @@ def _v1_offsets_case(draw):
             elif wrap == "else":
                 chain = ["if $v0 == 1", "  bot say b0", "else"] + ["  " + x for x in chain]
             body += chain
-        # gotos only to labels that exist in this flow
-        for _ in range(draw(st.integers(0, 2)) if labels else 0):
-            pos = draw(st.integers(0, len(body)))
-            ind = len(body[pos - 1]) - len(body[pos - 1].lstrip()) if pos > 0 else 0
-            if pos > 0 and body[pos - 1].lstrip().split(" ")[0] in ("if", "while", "when", "else"):
-                ind += 2
-            body.insert(pos, " " * ind + "goto " + draw(st.sampled_from(labels)))
+        # gotos only to labels that exist in this flow.  One more dimension: the goto plan - 'spread' (0-2 gotos, each to any label,
+        # anywhere) or 'fan-in' (2-4 gotos that all name the SAME label, all in front of it / all behind it / on both sides; a flow
+        # without a label gets one at top level first, in front of or behind the drawn body)
+        plan = draw(st.sampled_from(["spread", "spread", "fan-in"]))
+        if plan == "spread":
+            for _ in range(draw(st.integers(0, 2)) if labels else 0):
+                _v1_insert_goto(body, draw(st.integers(0, len(body))), draw(st.sampled_from(labels)))
+        else:
+            if not labels:
+                labels.append("l0")
+                line = draw(st.sampled_from(["label", "checkpoint"])) + " l0"
+                if draw(st.booleans()):
+                    body += [line, "bot say b9"]
+                else:
+                    body.insert(0, line)
+            target = draw(st.sampled_from(labels))
+            side = draw(st.sampled_from(["forward", "forward", "backward", "both"]))
+            for gi in range(draw(st.integers(2, 4))):
+                li = [i for i, ln in enumerate(body) if ln.strip() in ("label " + target, "checkpoint " + target)][0]
+                fwd = side == "forward" or (side == "both" and gi % 2 == 0)
+                pos = draw(st.integers(0, li)) if fwd else draw(st.integers(li + 1, len(body)))
+                _v1_insert_goto(body, pos, target)
         head = draw(st.sampled_from(["define flow", "define flow", "define subflow"]))
         flows.append([f"{head} gen{fi}", f"  user intent start{fi}"] + ["  " + x for x in body])
     text = "\n".join("\n".join(f) for f in flows) + "\n"
@@ -271,6 +341,48 @@ def _v1_when_family():
                 for cname, body in contexts.items():
                     text = "define subflow fam\n  user intent start\n" + "\n".join("  " + x for x in body) + "\n"
                     yield {"leg": "v1text", "text": text, "family": "when-exit/" + cname}
+
+
+def _v1_goto_family():
+    """Enumerated: 2-3 `goto` statements that name the SAME label x where the gotos stand (branches of one when chain, then / else
+    block of one if, consecutive if blocks at top level, if blocks in a while body, when branch + if block + top level) x on which
+    side of the label they stand (all in front of it = forward jumps, all behind it = backward jumps, first in front and the rest
+    behind) x label / checkpoint x label at top level / as the last statement of an if block x with / without a second label that has
+    a single goto of its own."""
+    ind = lambda ls: ["  " + x for x in ls]  # noqa: E731
+
+    def sites(k, g):
+        """site shape -> list of k statement groups, each containing one `goto`"""
+        out = {
+            "when-branches": None,  # one chain: handled below (all gotos stand in one statement group)
+            "if-blocks": [[f"if $v0 == {i}"] + ind([f"bot say b{i}", g]) for i in range(k)],
+            "while-ifs": [["while $v1 < 3"] + ind([x for i in range(k) for x in [f"if $v0 == {i}"] + ind([g])] + ["$v1 = $v1 + 1"])],
+            "mixed-depth": [["when user intent m0"] + ind(["bot say b0", g]) + ["else when user intent m1", "  bot say b1"], ["if $v0 == 1"] + ind(["while $v1 < 2"] + ind(["$v1 = $v1 + 1", "if $v1 == 2"] + ind([g])))] + ([[g]] if k == 3 else []),
+        }
+        if k == 2:
+            out["if-else"] = [["if $v0 == 1"] + ind(["bot say b0", g]) + ["else"] + ind(["bot say b1", g])]
+        chain = []
+        for i in range(k):
+            chain += [("when" if i == 0 else "else when") + f" user intent w{i}"] + ind([f"bot say b{i}", g])
+        chain += [f"else when user intent w{k}", f"  bot say b{k}"]
+        out["when-branches"] = [chain]
+        return out
+
+    for k in (2, 3):
+        for sname, groups in sites(k, "goto done").items():
+            for side in ("forward", "backward", "both"):
+                if side == "both" and len(groups) < 2:
+                    continue
+                for word in ("label", "checkpoint"):
+                    for lplace in ("top", "if-end"):
+                        for second in (False, True):
+                            lab = [word + " done"] if lplace == "top" else ["if $v1 == 0"] + ind(["bot say in", word + " done"])
+                            cut = {"forward": len(groups), "backward": 0, "both": 1}[side]
+                            body = [x for g_ in groups[:cut] for x in g_] + ["bot say mid"] + lab + ["bot say bye"] + [x for g_ in groups[cut:] for x in g_]
+                            if second:
+                                body = ["if $v0 == 7", "  goto other"] + body + ["label other", "bot say end"]
+                            text = "define flow fam\n  user intent start\n" + "\n".join("  " + x for x in body) + "\n"
+                            yield {"leg": "v1text", "text": text, "family": f"goto-fanin/{sname}/k{k}/{side}"}
 
 
 # ---------------------------------------------------------------------------------------------
@@ -768,9 +880,143 @@ def _v2_groups_family():
                 yield {"leg": "v2groups", "flows": [[{"place": place, "stmt": stmt}]], "family": f"group-repeat/{form}/{kind}/{shape}"}
 
 
+# ---------------------------------------------------------------------------------------------
+# Colang 2.x configurations initialised several times on the SAME flow configs (one runtime, several conversations), with 0-2 flows
+# whose expansion raises.  A flow body is a v2loops AST; a non-expandable statement is the leaf ["s", text, 2].
+
+_V2R_BAD = [  # statements the parser accepts and the expansion rejects
+    "match h0", "activate Ev0()", "send h0", "await Ev0()", "deactivate Ev0()", "start Ev1()",
+    "match h1 or Ev1()", "activate h0 or h1", "send h1 and Out0()", "await Ev0() or h0", "deactivate h0 or h1", "start Ev0() and h0",
+    'match UtteranceBotAction(script="x")', 'activate UtteranceBotAction(script="x")', 'send UtteranceBotAction(script="x")',
+    "match Ev0() and h0", "activate h0 and Ev1()", "$z = await Ev2()",
+]
+_V2R_HEAD = "flow h0\n  match Ev8()\n\nflow h1\n  match Ev9()\n\n"
+
+
+def _v2r_blocks(body, in_loop=False, kind="top"):
+    """All blocks of a body as (block, kind of the innermost construct that owns it, inside a loop)."""
+    out = [(body, kind, in_loop)]
+    for s in body:
+        if s[0] == "while":
+            out += _v2r_blocks(s[2], True, "while")
+        elif s[0] == "if":
+            for i, b in enumerate(_v2l_blocks(s)):
+                out += _v2r_blocks(b, in_loop, "if" if i == 0 else "else" if (s[2] is not None and i == len(s[1])) else "elif")
+        elif s[0] == "when":
+            for i, b in enumerate(_v2l_blocks(s)):
+                out += _v2r_blocks(b, in_loop, "when-else" if (s[2] is not None and i == len(s[1])) else "when")
+    return out
+
+
+def _v2r_insert(body, block_no, pos, text):
+    """Puts the non-expandable statement into block `block_no` (modulo the number of blocks) in front of statement `pos` (modulo
+    the number of places; never behind a break / continue that closes the block).  Returns the kind of the block."""
+    blocks = _v2r_blocks(body)
+    blk, kind, in_loop = blocks[block_no % len(blocks)]
+    n = len(blk) - 1 if blk and blk[-1][0] == "x" else len(blk)
+    blk.insert(pos % (n + 1), ["s", text, 2])
+    return kind
+
+
+def _v2r_text(case):
+    out = [_V2R_HEAD.rstrip("\n"), ""]
+    for i, fl in enumerate(case["flows"]):
+        out += [f"flow f{i}", "  $x = 0", "  $y = 0", '  start UtteranceBotAction(script="a") as $a0']
+        _v2l_render(fl, 1, out)
+        out.append("")
+    out.append("flow main")
+    for i in case.get("activate", []):
+        out.append(f"  activate f{i}")
+    out += ["  match Never()", ""]
+    return "\n".join(out)
+
+
+def _v2r_shape(case):
+    labels = set()
+    bad_flows = []
+    for i, fl in enumerate(case["flows"]):
+        hits = [(b, kind, in_loop) for b, kind, in_loop in _v2r_blocks(fl) for s in b if s[0] == "s" and s[2] == 2]
+        if hits:
+            bad_flows.append(i)
+        for b, kind, in_loop in hits:
+            labels.add("bad-in:" + kind)
+            if in_loop:
+                labels.add("bad-inside-loop")
+            for s in b:
+                if s[0] == "s" and s[2] == 2:
+                    labels.add("bad:" + s[1].split(" ")[0 if not s[1].startswith("$") else 2] + ("-group" if " or " in s[1] or " and " in s[1] else ""))
+        composite = any(s[0] in ("while", "if", "when") or (s[0] == "s" and s[2] == 1) for b, _, _ in _v2r_blocks(fl) for s in b)
+        if hits and composite:
+            labels.add("bad-flow-with-composites")
+        elif hits:
+            labels.add("bad-flow-otherwise-primitive")
+    n = len(case["flows"])
+    labels.add(f"bad-flows{len(bad_flows)}")
+    labels.add(f"attempts{case['attempts']}")
+    for i in bad_flows:
+        labels.add("bad-flow-" + ("first" if i == 0 else "last" if i == n - 1 else "middle") + ("" if n > 1 else "-only"))
+    if bad_flows and bad_flows[0] < n - 1:
+        labels.add("valid-flows-behind-bad-flow")
+    if case.get("activate"):
+        labels.add("main-activates")
+    return sorted(labels), bool(bad_flows)
+
+
+@st.composite
+def _v2_reinit_case(draw):
+    depth = draw(st.integers(1, 2))
+    flows = []
+    for _ in range(draw(st.integers(1, 4))):
+        body = []
+        for _ in range(draw(st.integers(1, 2))):
+            if draw(st.booleans()):
+                body += draw(_v2l_block(depth, False, False, 1, 2))
+            else:
+                body.append(draw(_v2l_while(depth)))
+        flows.append(body)
+    nbad = draw(st.sampled_from([1, 1, 2, 1, 1, 0]))
+    for fi in draw(st.lists(st.integers(0, len(flows) - 1), min_size=nbad, max_size=nbad)):  # the same flow twice: two bad statements in it
+        _v2r_insert(flows[fi], draw(st.integers(0, 11)), draw(st.integers(0, 5)), draw(st.sampled_from(_V2R_BAD)))
+    act = draw(st.lists(st.integers(0, len(flows) - 1), max_size=2, unique=True))
+    return {"leg": "v2reinit", "flows": flows, "activate": sorted(act), "attempts": draw(st.sampled_from([2, 3, 2]))}
+
+
+def _v2_reinit_family():
+    """Enumerated: three flows, one of them with one non-expandable statement, for every such statement x where it stands in the flow
+    (first / last statement, in a while body, in an if / else block, in a when branch, in an if block inside a loop in front of a
+    break) x whether the flow is the first, middle or last one x whether its other statements need expansion; initialised 3 times."""
+    m, a = ["s", "match Ev0()", 0], ["s", "$x = $x + 1", 0]
+    valid1 = [["while", "$x < 3", [["s", "await h0", 1], ["if", [["$x == 2", [["x", "break"]]]], None], a]], ["s", "await h0 or h1", 1]]
+    valid2 = [["when", [["Ev0()", [a]], ["h1", [["s", "$y = 1", 0]]]], None], ["s", "start h1 as $r0", 1], ["s", "match $r0.Finished()", 0]]
+
+    def hosts(bad, rich):
+        b = ["s", bad, 2]
+        w = ["s", "await h1", 1] if rich else m
+        return {
+            "top-first": [b, w, a],
+            "top-last": [w, a, b],
+            "while": [["while", "$x < 3", [w, b, a]]],
+            "if": [w, ["if", [["$x == 1", [b]]], None]],
+            "else": [w, ["if", [["$x == 1", [a]]], [b]]],
+            "when": [["when", [["Ev1()", [b]], ["Ev2()", [a]]], None], w],
+            "loop-if-break": [["while", "$x < 3", [w, ["if", [["$y == 1", [b, ["x", "break"]]]], None], a]]],
+        }
+
+    for bad in _V2R_BAD:
+        for rich in (True, False):
+            for hname, host in hosts(bad, rich).items():
+                for pos in (0, 1, 2):
+                    flows = [valid1, valid2]
+                    flows.insert(pos, host)
+                    yield {"leg": "v2reinit", "flows": flows, "activate": [0] if pos != 0 else [], "attempts": 3,
+                           "family": f"expansion-raises/{bad.split(' ')[0 if not bad.startswith('$') else 2]}/{hname}/{('first', 'middle', 'last')[pos]}"}
+
+
 @st.composite
 def _case(draw):
-    leg = draw(st.integers(0, 14))
+    leg = draw(st.integers(0, 16))
+    if leg >= 15:
+        return draw(_v2_reinit_case())
     if leg >= 12:
         return draw(_v2_groups_case())
     if leg < 3:
@@ -821,6 +1067,9 @@ def check_v2_flow(cfg):
                 bad.append(("composite-left", f"element {i}: SpecOp op={e.op!r} left unexpanded"))
             elif not isinstance(e.spec, A.Spec):
                 bad.append(("group-left", f"element {i}: SpecOp {e.op} still carries a group ({type(e.spec).__name__})"))
+            elif e.op in ("send", "match") and e.spec.members is None and e.spec.spec_type != A.SpecType.EVENT:
+                # the expansion rewrites or rejects every send / match of a bare flow or action: the primitives work on events
+                bad.append(("composite-left", f"element {i}: SpecOp {e.op} of a bare {e.spec.spec_type} ({e.spec.name!r}) left unexpanded"))
         elif isinstance(e, prims):
             if isinstance(e, A.Goto):
                 stats["jumps"] += 1
@@ -882,10 +1131,15 @@ def check_v1_flow(flow):
             used = ["_next_on_break"]
         else:
             used = ["_next"]
+        if t in ("goto", "label"):
+            bad.append(("unresolved-goto", f"element {i}: `{t}` {e.get('label', e.get('name'))!r} left in the compiled flow"))
+            continue
         for key in used:
             if key not in e:
                 if t == "if" and key == "_next_else":
                     bad.append(("missing-offset", f"element {i} ({t}) has no {key}"))
+                elif t == "jump":  # a jump element has nothing but its target: without `_next` it is an unresolved jump
+                    bad.append(("unresolved-jump", f"element {i} (jump, {e.get('_debug', 'no _debug')!r}) has no _next: the jump has no target"))
                 continue
             jumps += 1
             try:
@@ -932,6 +1186,17 @@ def _compile_v2(flows):
 
     configs = create_flow_configs_from_flow_list(flows)
     state = State(flow_states=[], flow_configs=configs)
+    initialize_state(state)
+    return state.flow_configs
+
+
+def _reinit_v2(configs):
+    """A further conversation on the same runtime: a new State over the SAME FlowConfig objects (RuntimeV2_x.process_events with
+    state=None builds `State(flow_states={}, flow_configs=dict(self.flow_configs))` and calls initialize_state)."""
+    from nemoguardrails.colang.v2_x.runtime.flows import State
+    from nemoguardrails.colang.v2_x.runtime.statemachine import initialize_state
+
+    state = State(flow_states={}, flow_configs=dict(configs))
     initialize_state(state)
     return state.flow_configs
 
@@ -1027,6 +1292,41 @@ def _v1_when_shape(text):
     return sorted(labels)
 
 
+def _v1_goto_shape(text):
+    """Labels for the gotos of a Colang 1.0 text: how many gotos name the same label and on which side of it they stand."""
+    labels = set()
+    flows, cur = [], None
+    for ln in text.split("\n"):
+        if ln.startswith("define "):
+            cur = []
+            flows.append(cur)
+        elif ln.strip() and cur is not None:
+            cur.append((len(ln) - len(ln.lstrip()), ln.strip()))
+    for lines in flows:
+        where = {txt.split(" ")[1]: i for i, (_, txt) in enumerate(lines) if txt.split(" ")[0] in ("label", "checkpoint") and len(txt.split(" ")) > 1}
+        fwd, bwd = {}, {}
+        for i, (ind, txt) in enumerate(lines):
+            if txt.startswith("goto ") and txt[5:] in where:
+                (fwd if i < where[txt[5:]] else bwd).setdefault(txt[5:], []).append(ind)
+        for name in where:
+            nf, nb = len(fwd.get(name, [])), len(bwd.get(name, []))
+            if nf + nb >= 2:
+                labels.add("goto-same-label>=2")
+            if nf >= 2:
+                labels.add("goto-forward-same-label>=2")
+                if any(x > 2 for x in fwd[name]):
+                    labels.add("goto-forward-same-label>=2/in-block")
+            if nf >= 3:
+                labels.add("goto-forward-same-label>=3")
+            if nb >= 2:
+                labels.add("goto-backward-same-label>=2")
+            if nf and nb:
+                labels.add("goto-both-sides-of-label")
+            if nf == 1 and not nb:
+                labels.add("goto-forward-single")
+    return sorted(labels)
+
+
 def _check_v2_text(text, flows=None):
     """Parses the program once and compiles the parsed flows twice - what two LLMRails instances built from one RailsConfig do -:
     every compilation must be closed."""
@@ -1042,6 +1342,43 @@ def _check_v2_text(text, flows=None):
             bad, _ = check_v2_flow(cfg)
             if bad:
                 raise Violation(f"v2-{tag}" + bad[0][0], ("second compilation of the same parsed flows: " if rnd == 2 else "") + f"flow {name!r}: {bad[0][1]}\n{text}")
+    # ... and the flow configs of one compilation serve every conversation of a runtime: a second state initialised on the SAME
+    # flow configs must be accepted and closed as well
+    try:
+        configs = _reinit_v2(configs)
+    except Exception as e:
+        raise Violation("v2-reinitialised-compile-error:" + type(e).__name__, "second state on the same flow configs: " + f"{e!r}"[:300] + "\n" + text)
+    for name, cfg in configs.items():
+        bad, _ = check_v2_flow(cfg)
+        if bad:
+            raise Violation("v2-reinitialised-" + bad[0][0], f"second state initialised on the same flow configs: flow {name!r}: {bad[0][1]}\n{text}")
+
+
+def _check_v2_reinit(case):
+    """One runtime, several conversations: the flow configs are created once, then `attempts` states are initialised on them.
+    Every attempt is either rejected (initialize_state raises) or accepted - and every flow of an accepted state must be closed,
+    whatever happened in the attempts before."""
+    from nemoguardrails.colang.v2_x.runtime.runtime import create_flow_configs_from_flow_list
+
+    text = _v2r_text(case)
+    labels, has_bad = _v2r_shape(case)
+    configs = create_flow_configs_from_flow_list(smh.parse(text))
+    outcomes = []
+    for attempt in range(1, case["attempts"] + 1):
+        try:
+            accepted = _reinit_v2(configs)
+        except Exception as e:
+            if not has_bad:  # same rule as for every other generated valid program
+                raise Violation("v2-reinit-compile-error:" + type(e).__name__, f"state {attempt} on the same flow configs (before: {outcomes}): " + f"{e!r}"[:300] + "\n" + text)
+            outcomes.append("rejected:" + type(e).__name__)
+            continue
+        for name, cfg in accepted.items():
+            bad, _ = check_v2_flow(cfg)
+            if bad:
+                raise Violation("v2-reinit-" + bad[0][0], f"state {attempt} initialised on the same flow configs was accepted (attempts before: {outcomes or 'none'}) but flow {name!r} is not closed: {bad[0][1]}\n{text}")
+        outcomes.append("accepted")
+    labels.append("outcomes:" + ",".join(sorted(set(o.split(":")[0] for o in outcomes))))
+    return text, labels, has_bad, outcomes
 
 
 def prop(case):
@@ -1062,11 +1399,12 @@ def prop(case):
             if bad:
                 raise Violation("v1-" + bad[0][0], f"flow {fl.get('id')!r}: {bad[0][1]}\n{text}")
         labels = ["v1text"] + [k for k in ("label", "checkpoint", "goto", "when", "while", "break", "continue", "return", "stop", "abort", "subflow") if k + " " in text or text.rstrip().endswith(k) or ("\n" + k) in text.replace(" ", "")]
-        labels += _v1_when_shape(text)
+        labels += _v1_when_shape(text) + _v1_goto_shape(text)
         if case.get("family"):
             labels.append("family:" + case["family"].split("/")[0])
             labels.append("family:" + case["family"])
-        return ok(nt=total >= 3, labels=labels, view={"program": text, "jump_offsets": total})
+        counters = {"v1text:" + x: 1 for x in labels if x.startswith("goto-")}  # the label histogram of the evidence keeps the top 60 only
+        return ok(nt=total >= 3, labels=labels, view={"program": text, "jump_offsets": total}, counters=counters)
     if case["leg"] == "v2loops":
         text = _v2l_text(case["body"])
         _check_v2_text(text)
@@ -1088,6 +1426,18 @@ def prop(case):
             labels += ["family:" + parts[0], "family:" + parts[0] + "/form=" + parts[1], "family:" + parts[0] + "/shape=" + parts[3]]
         nt = any(x in labels for x in ("repeated-member", "nested-group")) or any(x.startswith("dnf-alts") and x != "dnf-alts1" for x in labels)
         return ok(nt=nt, labels=labels, view={"program": text})
+    if case["leg"] == "v2reinit":
+        text, labels, has_bad, outcomes = _check_v2_reinit(case)
+        labels = ["v2reinit"] + labels
+        if case.get("family"):
+            parts = case["family"].split("/")
+            labels += ["family:" + parts[0], "family:" + parts[0] + "/stmt=" + parts[1], "family:" + parts[0] + "/host=" + parts[2], "family:" + parts[0] + "/flow=" + parts[3]]
+        # non-trivial: a second state was initialised after a rejected one, or >= 2 states were accepted on the same flow configs
+        rej = [i for i, o in enumerate(outcomes) if o != "accepted"]
+        counters = {"v2reinit:states-initialised": len(outcomes), "v2reinit:rejected": len(rej), "v2reinit:accepted-and-closed": len(outcomes) - len(rej),
+                    "v2reinit:initialised-after-a-rejection": (len(outcomes) - 1 - rej[0]) if rej else 0}
+        counters.update({"v2reinit:" + x: 1 for x in labels if x.startswith(("bad-flows", "bad-in:", "bad-flow-", "bad:"))})
+        return ok(nt=len(outcomes) >= 2, labels=labels, view={"program": text, "outcomes": outcomes}, counters=counters)
     if case["leg"] == "v1gen":
         from nemoguardrails.colang import parse_colang_file
 
